@@ -110,7 +110,7 @@ fn main() {
                 args[3].parse().expect("N"),
                 args[4].parse().expect("fail"),
                 args.get(5).and_then(|s| s.parse().ok()).unwrap_or(0),
-                args.get(6).map(|s| s == "1").unwrap_or(false),
+                args.get(6).and_then(|s| s.parse().ok()).unwrap_or(0),
             );
         }
         _ => usage(),
